@@ -60,12 +60,155 @@ def source (cs : List PClass) (names : Nat → String) (p : Nat) (t : Nat) : Sou
 def build (cs : List PClass) (names : Nat → String) (p : Nat) : List (Nat × Source) :=
   (typesOf cs p).map fun t => (t, source cs names p t)
 
+/-! ### iteration is lazy: init methods may change what builds the later components
+
+`__iter__` returns a generator expression: `iter(self.component_types)` is taken when `__iter__` is
+called, everything else (`self.init_methods`, `self.init_prefix`, the `getattr`) is evaluated anew
+for every item, when `next()` asks for it.  An init method, a factory of `init_methods`, a component
+constructor — or the consumer between two `next()` calls — can therefore change, on the instance
+or on a class, what is in charge of the types that come later.  Attribute lookup goes to the
+instance first, then along the class chain, then to `Prototype`'s own defaults. -/
+
+/-- attributes set on the prototype instance -/
+structure InstOv where
+  im : Option (List (Nat × String)) := none
+  pfx : Option String := none
+  types : Option (List Nat) := none
+  /-- functions stored as instance attributes (`self.init_X = f`) -/
+  methods : List (String × String) := []
+deriving Repr, Inhabited
+
+structure PState where
+  cs : List PClass
+  /-- `Prototype.init_methods`, the dictionary every class that does not define its own shares -/
+  protoIm : List (Nat × String) := []
+  inst : InstOv := {}
+deriving Repr, Inhabited
+
+/-- what user code running during (or between the steps of) an iteration does to the prototype -/
+inductive Eff where
+  /-- `self.init_methods[T] = f`: in place, on the dictionary the lookup finds -/
+  | imSet (t : Nat) (f : String)
+  /-- `self.init_methods.pop(T, None)`: in place -/
+  | imDel (t : Nat)
+  /-- `self.init_methods = {..}` -/
+  | instIm (im : List (Nat × String))
+  | instPrefix (p : String)
+  /-- `self.<name> = f` -/
+  | instMeth (name label : String)
+  /-- `self.__dict__.pop(name, None)` -/
+  | instMethDel (name : String)
+  | instTypes (ts : List Nat)
+  /-- `P<c>.init_methods = {..}` and so on: class attributes of a class of the scenario -/
+  | clsIm (c : Nat) (im : List (Nat × String))
+  | clsPrefix (c : Nat) (p : String)
+  | clsMeth (c : Nat) (name label : String)
+  | clsMethDel (c : Nat) (name : String)
+  | clsTypes (c : Nat) (ts : List Nat)
+deriving Repr, Inhabited
+
+def typesOfS (s : PState) (p : Nat) : List Nat :=
+  match s.inst.types with
+  | some ts => ts
+  | none => typesOf s.cs p
+
+def prefixOfS (s : PState) (p : Nat) : String :=
+  match s.inst.pfx with
+  | some x => x
+  | none => prefixOf s.cs p
+
+def imOfS (s : PState) (p : Nat) : List (Nat × String) :=
+  match s.inst.im with
+  | some im => im
+  | none => (attr s.cs (·.im) (s.cs.length + 1) p).getD s.protoIm
+
+def methodOfS (s : PState) (p : Nat) (name : String) : Option String :=
+  match Dict.get? s.inst.methods name with
+  | some g => some g
+  | none => methodOf s.cs p name
+
+/-- the source in charge of type `t` in the state `s` -/
+def sourceS (s : PState) (names : Nat → String) (p : Nat) (t : Nat) : Source :=
+  match Dict.get? (imOfS s p) t with
+  | some f => .initMethods f
+  | none =>
+    match methodOfS s p (prefixOfS s p ++ names t) with
+    | some g => .method g
+    | none => .default
+
+/-- the class along the chain of `p` whose own attribute the lookup finds -/
+def owner {α : Type} (cs : List PClass) (f : PClass → Option α) : Nat → Nat → Option Nat
+  | 0, _ => none
+  | fuel + 1, p =>
+    match cs[p]? with
+    | none => none
+    | some c =>
+      match f c with
+      | some _ => some p
+      | none =>
+        match c.base with
+        | some b => owner cs f fuel b
+        | none => none
+
+def modifyAt {α : Type} (l : List α) (i : Nat) (f : α → α) : List α :=
+  (List.range l.length).zipWith (fun k a => if k = i then f a else a) l
+
+/-- in-place change of the dictionary `self.init_methods` evaluates to -/
+def mutateIm (s : PState) (p : Nat) (f : List (Nat × String) → List (Nat × String)) : PState :=
+  match s.inst.im with
+  | some im => { s with inst := { s.inst with im := some (f im) } }
+  | none =>
+    match owner s.cs (·.im) (s.cs.length + 1) p with
+    | some c => { s with cs := modifyAt s.cs c (fun pc => { pc with im := pc.im.map f }) }
+    | none => { s with protoIm := f s.protoIm }
+
+def applyEff (p : Nat) (s : PState) : Eff → PState
+  | .imSet t f => mutateIm s p (fun im => Dict.set im t f)
+  | .imDel t => mutateIm s p (fun im => Dict.erase im t)
+  | .instIm im => { s with inst := { s.inst with im := some im } }
+  | .instPrefix x => { s with inst := { s.inst with pfx := some x } }
+  | .instMeth n g => { s with inst := { s.inst with methods := Dict.set s.inst.methods n g } }
+  | .instMethDel n => { s with inst := { s.inst with methods := Dict.erase s.inst.methods n } }
+  | .instTypes ts => { s with inst := { s.inst with types := some ts } }
+  | .clsIm c im => { s with cs := modifyAt s.cs c (fun pc => { pc with im := some im }) }
+  | .clsPrefix c x => { s with cs := modifyAt s.cs c (fun pc => { pc with pfx := some x }) }
+  | .clsMeth c n g => { s with cs := modifyAt s.cs c (fun pc => { pc with methods := Dict.set pc.methods n g }) }
+  | .clsMethDel c n => { s with cs := modifyAt s.cs c (fun pc => { pc with methods := Dict.erase pc.methods n }) }
+  | .clsTypes c ts => { s with cs := modifyAt s.cs c (fun pc => { pc with types := some ts }) }
+
+def applyEffs (p : Nat) (s : PState) (es : List Eff) : PState := es.foldl (applyEff p) s
+
+/-- one `next()`: the source is looked up now, the component is built, its builder's effects happen -/
+def nextStep (E : Nat → Source → List Eff) (names : Nat → String) (p : Nat) (s : PState) (t : Nat) :
+    PState × (Nat × Source) :=
+  let src := sourceS s names p t
+  (applyEffs p s (E t src), (t, src))
+
+/-- the rest of an iteration over the captured types -/
+def buildFrom (E : Nat → Source → List Eff) (names : Nat → String) (p : Nat) :
+    PState → List Nat → PState × List (Nat × Source)
+  | s, [] => (s, [])
+  | s, t :: ts =>
+    let r := nextStep E names p s t
+    let rest := buildFrom E names p r.1 ts
+    (rest.1, r.2 :: rest.2)
+
+/-- `list(prototype)`: the types are those of the moment `__iter__` is called -/
+def buildLazy (E : Nat → Source → List Eff) (names : Nat → String) (p : Nat) (s : PState) :
+    PState × List (Nat × Source) :=
+  buildFrom E names p s (typesOfS s p)
+
 /-! ### line protocol -/
 open Proto
 
 structure Parsed where
   names : Dict Nat String := []
   classes : List PClass := []
+  protoIm : List (Nat × String) := []
+  /-- `effect <tid> <source> : op ; ..` what the builder of a component of that type does -/
+  effects : Dict (Nat × String) (List Eff) := []
+  /-- `ceffect <k> : op ; ..` what the consumer does between two `next()` calls -/
+  ceffects : Dict Nat (List Eff) := []
   out : List String := []
   bad : Bool := false
 
@@ -89,6 +232,67 @@ def showSource : Source → String
   | .method g => s!"method:{g}"
   | .default => "default"
 
+def unq (x : String) : String := (x.drop 1).toString
+
+def parseEff : List String → Option Eff
+  | ["im-set", t, f] => t.toNat?.map (.imSet · f)
+  | ["im-del", t] => t.toNat?.map .imDel
+  | ["inst-im", im] => (parsePairsNat im).map .instIm
+  | ["inst-prefix", x] => some (.instPrefix (unq x))
+  | ["inst-meth", n, g] => some (.instMeth n g)
+  | ["inst-meth-del", n] => some (.instMethDel n)
+  | ["inst-types", ts] => (natList? ts).map .instTypes
+  | ["cls-im", c, im] => match c.toNat?, parsePairsNat im with
+    | some c, some im => some (.clsIm c im)
+    | _, _ => none
+  | ["cls-prefix", c, x] => c.toNat?.map (.clsPrefix · (unq x))
+  | ["cls-meth", c, n, g] => c.toNat?.map (.clsMeth · n g)
+  | ["cls-meth-del", c, n] => c.toNat?.map (.clsMethDel · n)
+  | ["cls-types", c, ts] => match c.toNat?, natList? ts with
+    | some c, some ts => some (.clsTypes c ts)
+    | _, _ => none
+  | _ => none
+
+/-- `op ; op ; op` -/
+def parseEffs (toks : List String) : Option (List Eff) :=
+  let groups := toks.foldr (fun t acc =>
+      if t = ";" then [] :: acc else match acc with
+        | [] => [[t]]
+        | g :: gs => (t :: g) :: gs) [[]]
+  (groups.filter (· ≠ [])).mapM parseEff
+
+/-- stepwise consumption: `A` / `B` call `iter(proto)`, `a` / `b` call `next()` on that iterator,
+`L` is `list(proto)`, `e<k>` lets the consumer act -/
+structure RunSt where
+  s : PState
+  a : Option (List Nat) := none
+  b : Option (List Nat) := none
+  out : List String := []
+  bad : Bool := false
+
+def runTok (E : Nat → Source → List Eff) (names : Nat → String) (ce : Nat → List Eff) (p : Nat)
+    (r : RunSt) (tok : String) : RunSt :=
+  let next := fun (tag : String) (it : Option (List Nat)) =>
+    match it with
+    | none => ({ r with bad := true }, it)
+    | some [] => ({ r with out := r.out ++ [s!"stop {tag}"] }, some [])
+    | some (t :: ts) =>
+      let x := nextStep E names p r.s t
+      ({ r with s := x.1, out := r.out ++ [s!"built {tag} {x.2.1} {showSource x.2.2}"] }, some ts)
+  match tok.toList with
+  | ['A'] => { r with a := some (typesOfS r.s p) }
+  | ['B'] => { r with b := some (typesOfS r.s p) }
+  | ['a'] => let (r', it) := next "A" r.a; { r' with a := it }
+  | ['b'] => let (r', it) := next "B" r.b; { r' with b := it }
+  | ['L'] =>
+    let x := buildLazy E names p r.s
+    { r with s := x.1, out := r.out ++ x.2.map (fun y => s!"built L {y.1} {showSource y.2}") }
+  | 'e' :: ds =>
+    match (String.ofList ds).toNat? with
+    | some k => { r with s := applyEffs p r.s (ce k) }
+    | none => { r with bad := true }
+  | _ => { r with bad := true }
+
 def parseLine (p : Parsed) (line : String) : Parsed :=
   match tokens line with
   | ["ptype", t, n] =>
@@ -110,11 +314,32 @@ def parseLine (p : Parsed) (line : String) : Parsed :=
         else { p with bad := true }
       | _, _, _ => { p with bad := true }
     | _, _, _, _, _, _ => { p with bad := true }
+  | "effect" :: t :: src :: ":" :: rest =>
+    match t.toNat?, parseEffs rest with
+    | some t, some es => { p with effects := Dict.set p.effects (t, src) es }
+    | _, _ => { p with bad := true }
+  | "ceffect" :: k :: ":" :: rest =>
+    match k.toNat?, parseEffs rest with
+    | some k, some es => { p with ceffects := Dict.set p.ceffects k es }
+    | _, _ => { p with bad := true }
   | ["iter", pid] =>
+    -- `list(P<pid>())` on a new instance; class level effects stay
     match pid.toNat? with
     | some i =>
       let names := fun t => (Dict.get? p.names t).getD ""
-      { p with out := p.out ++ (build p.classes names i).map fun x => s!"built {x.1} {showSource x.2}" }
+      let E := fun t src => (Dict.get? p.effects (t, showSource src)).getD []
+      let x := buildLazy E names i { cs := p.classes, protoIm := p.protoIm }
+      { p with classes := x.1.cs, protoIm := x.1.protoIm,
+               out := p.out ++ x.2.map fun y => s!"built {y.1} {showSource y.2}" }
+    | none => { p with bad := true }
+  | "run" :: pid :: toks =>
+    match pid.toNat? with
+    | some i =>
+      let names := fun t => (Dict.get? p.names t).getD ""
+      let E := fun t src => (Dict.get? p.effects (t, showSource src)).getD []
+      let ce := fun k => (Dict.get? p.ceffects k).getD []
+      let r := toks.foldl (runTok E names ce i) { s := { cs := p.classes, protoIm := p.protoIm } }
+      { p with classes := r.s.cs, protoIm := r.s.protoIm, out := p.out ++ r.out, bad := p.bad || r.bad }
     | none => { p with bad := true }
   | [] => p
   | _ => { p with bad := true }
